@@ -363,6 +363,14 @@ func (w *World) StartOutcome() *Outcome {
 			}
 		}
 	}
+	if len(w.P.Scanners) != 0 && mustFail == "" {
+		for _, id := range w.P.Refuse {
+			if w.Insts[id] != nil {
+				mustFail = fmt.Sprintf("scanner %s refuses the definition of %s", w.P.Scanners[0].ID, id)
+				break
+			}
+		}
+	}
 	switch {
 	case mustFail != "":
 		o.Verdict, o.Why = MustFail, mustFail
